@@ -75,7 +75,13 @@ class RecordingTransport(asyncio.DatagramTransport):
         A datagram arrives from the outside world.
         """
         if not self.closed:
-            self.protocol.datagram_received(data, addr)
+            if self.loop.transport_escaped is None:
+                self.protocol.datagram_received(data, addr)
+                return
+            try:
+                self.protocol.datagram_received(data, addr)
+            except Exception as e:  # noqa: BLE001 - recorded for the check that asked for it (C03: outside sockets)
+                self.loop.transport_escaped.append((self, bytes(data), addr, e))
 
     def get_extra_info(self, name: str, default: Any = None) -> Any:
         if name == "sockname":
@@ -125,6 +131,7 @@ class VirtualLoop(asyncio.SelectorEventLoop):
         self.next_port = 40000
         self.hosts: dict[str, str] = {}
         self.on_transport: Callable[[RecordingTransport], None] | None = None
+        self.transport_escaped: list | None = None    # a list: exceptions leaving datagram_received are recorded there
         self.open_latency: dict = {}      # local host ("0.0.0.0" / "::") -> virtual seconds it takes to open a socket there
         self.ipv6_available = True      # False: binding a "::" socket fails with EAFNOSUPPORT (host without IPv6)
         self.set_exception_handler(self._on_exception)
